@@ -105,13 +105,6 @@ theorem serToks_raw (m : Method) (toks : List Tok) (h : ∀ t ∈ toks, tokOkB m
 
 /-! ### what the reader makes of it -/
 
-/-- the events a serializer token stands for -/
-def tokEvents : Tok → List Ev
-  | .text s f => [.text s f]
-  | .open t a => [.start t a]
-  | .empty t a => [.start t a, .end_ t]
-  | .close t => [.end_ t]
-
 theorem safeOk_no_lt (s : List Char) (h : SafeOk s) : ∀ c ∈ s, c ≠ '<' := by
   obtain ⟨ps, rfl⟩ := h
   intro c hc
